@@ -19,7 +19,7 @@ EXC_CLASSES = {
     "BaseExceptionGroup": 10, "TypeError": 11, "KeyError": 12, "ValueError": 13,
 }
 CMP = {ast.Eq: 0, ast.NotEq: 1, ast.Lt: 2, ast.LtE: 3, ast.Gt: 4, ast.GtE: 5}
-B = dict(delitem=20, movetoend=21, popfirst=22, pair=23, anyinst=17, add=18, isnumber=19, get=16, len=0, append=1, appendleft=2, extend=3, popleft=4, head=5, contains=6, getitem=7, setitem=8, isinstance=9,
+B = dict(sub=24, delitem=20, movetoend=21, popfirst=22, pair=23, anyinst=17, add=18, isnumber=19, get=16, len=0, append=1, appendleft=2, extend=3, popleft=4, head=5, contains=6, getitem=7, setitem=8, isinstance=9,
          newexc=10, index1=11, values=12, concat=13, dictoftypes=14, type=15)
 
 
@@ -48,6 +48,7 @@ class Target:
     await_ext: int | None = None        # `await <expr>` of something that is not itself an external call -> this external, [expr]
     callables: dict[str, int] = field(default_factory=dict)     # parameter / local that is called: name -> external, args [callee, *args]
     self_names: tuple[str, ...] = ("self", "cls")
+    with_externals: dict[str, tuple[int, int]] = field(default_factory=dict)   # receiver text of a `with` -> (enter, exit) externals
     closure: list[str] = field(default_factory=list)   # free variables of a nested function (the enclosing function's parameters), numbered first
     part: str | None = None             # "loop_body": the function must be `<name> = <int>; while True: <body>` – translate <body> only
 
@@ -163,6 +164,12 @@ class Tr:
             if self.t.await_ext is not None and not (isinstance(n.value, ast.Call) and e.startswith("(Expr.call ")):
                 return p, f"(Expr.call {self.t.await_ext} {self.lst([e])})"
             return p, e
+        if isinstance(n, ast.BinOp) and isinstance(n.op, (ast.Add, ast.Sub)):
+            pa, ea = self.expr(n.left)
+            pb_, eb = self.expr(n.right)
+            if pb_:
+                raise Unrecognised("effectful right operand")
+            return pa, f"(Expr.call {B['add'] if isinstance(n.op, ast.Add) else B['sub']} {self.lst([ea, eb])})"
         if isinstance(n, ast.UnaryOp) and isinstance(n.op, ast.Not):
             p, e = self.expr(n.operand)
             return p, f"(Expr.not_ {e})"
@@ -469,6 +476,21 @@ class Tr:
             return f"(Stmt.setFld {self.t.fields[target.attr]} {e})"
         raise Unrecognised(f"assignment target {self.src(target)}")
 
+    def loop_step(self, w: ast.While) -> str:
+        p, c = self.expr(w.test)
+        return self.seq(p + [f"(Stmt.ite {c} {self.stmts(w.body)} Stmt.brk)"])
+
+    def with_parts(self, s: ast.AsyncWith | ast.With) -> tuple[str, str]:
+        """`[async] with <receiver>:` for a receiver listed in `with_externals`: (enter, exit) statements; the body runs under
+        `try … finally exit` (the exception details handed to `__aexit__` are not modelled: the managers of the subset ignore them)"""
+        if len(s.items) != 1 or s.items[0].optional_vars is not None:
+            raise Unrecognised("with statement of another shape")
+        recv = self.src(s.items[0].context_expr)
+        if recv not in self.t.with_externals:
+            raise Unrecognised(f"with {recv}")
+        en, ex = self.t.with_externals[recv]
+        return f"(Stmt.expr (Expr.call {en} Expr.nil))", f"(Stmt.expr (Expr.call {ex} Expr.nil))"
+
     # ---- statements
     def stmts(self, body: list[ast.stmt]) -> str:
         return self.seq([self.stmt(s) for s in body])
@@ -545,9 +567,15 @@ class Tr:
             pk, ek = self.expr(tg.slice)
             return self.seq(pr + pk + [self.store(tg.value, f"(Expr.call {B['delitem']} {self.lst([er, ek])})")])
         if isinstance(s, ast.While):
-            if not (isinstance(s.test, ast.Constant) and s.test.value is True) or s.orelse:
-                raise Unrecognised("while loop other than `while True:`")
-            return f"(Stmt.loop fuel {self.stmts(s.body)})"
+            if s.orelse:
+                raise Unrecognised("while … else")
+            if isinstance(s.test, ast.Constant) and s.test.value is True:
+                return f"(Stmt.loop fuel {self.stmts(s.body)})"
+            # `while c: body`  =  `while True: (body if c else break)`
+            return f"(Stmt.loop fuel {self.loop_step(s)})"
+        if isinstance(s, (ast.AsyncWith, ast.With)):
+            en, ex = self.with_parts(s)
+            return f"(Stmt.seq {en} (Stmt.try_ {self.stmts(s.body)} Stmt.noHandler Stmt.pass {ex}))"
         if isinstance(s, ast.Continue):
             return "Stmt.cont"
         if isinstance(s, ast.Break):
@@ -708,5 +736,18 @@ def translate(repo, t: Target) -> tuple[str, dict[str, int]]:
         locs = dict(tr.locals)
         locs["$counter"] = tr.locals[tg.id]
         return term, locs
+    if t.part is not None and t.part.startswith("locked_loop."):
+        # `[async] with <lock>: <pre…>; while <test>: <body>; <post…>` then `return <tail>`; one of the five pieces
+        if not (len(body) == 2 and isinstance(body[0], (ast.AsyncWith, ast.With)) and isinstance(body[1], ast.Return)):
+            raise Unrecognised(f"{t.method}: not `with lock: …` followed by `return …`")
+        inner = body[0].body
+        loops = [i for i, x in enumerate(inner) if isinstance(x, ast.While)]
+        if len(loops) != 1 or inner[loops[0]].orelse:
+            raise Unrecognised(f"{t.method}: not exactly one top-level loop inside the `with`")
+        tr.with_parts(body[0])     # the receiver must be the lock
+        k = loops[0]
+        pieces = {"pre": tr.stmts(inner[:k]), "step": tr.loop_step(inner[k]), "post": tr.stmts(inner[k + 1:]),
+                  "tail": tr.stmt(body[1])}      # translated in program order: the numbering of the locals is that of the whole
+        return pieces[t.part.split(".")[1]], dict(tr.locals)
     term = tr.stmts(body)
     return term, dict(tr.locals)
